@@ -163,7 +163,7 @@ pub fn run_case(ctx: &Ctx, rep: &mut Report, case_seed: u64, variant: u64) {
 	let r = catch(|| scenario(ctx, rep, case_seed, variant, &desc));
 	if let Err(p) = r {
 		rep.violation(
-			format!("scenario=C02;mode=threaded;failure=panic;site={}", panic_site(&p)),
+			format!("scenario={};mode=threaded;failure=panic;site={}", ctx.prop, panic_site(&p)),
 			format!("panic: {}", p),
 			J::obj().set("case", J::s(desc)).set("case_seed", J::i(case_seed)).set("variant", J::i(variant)),
 		);
@@ -212,7 +212,7 @@ fn scenario(ctx: &Ctx, rep: &mut Report, case_seed: u64, variant: u64, desc: &st
 		let t0 = Instant::now();
 		while sh.at(READY).load(Ordering::SeqCst) == 0 && t0.elapsed() < Duration::from_secs(30) {
 			if let Ok(Some(st)) = ch.try_wait() {
-				rep.violation("scenario=C02;mode=threaded;failure=open_error".to_string(), format!("the workload process could not open the database (round {}): {:?}", round, st), replay);
+				rep.violation(format!("scenario={};mode=threaded;failure=open_error", ctx.prop), format!("the workload process could not open the database (round {}): {:?}", round, st), replay);
 				return
 			}
 			std::thread::sleep(Duration::from_millis(1));
@@ -220,7 +220,7 @@ fn scenario(ctx: &Ctx, rep: &mut Report, case_seed: u64, variant: u64, desc: &st
 		std::thread::sleep(Duration::from_micros(rng.range(2_000, ctx.tier.pick(900_000, 2_500_000))));
 		ctx.progress();
 		if let Ok(Some(st)) = ch.try_wait() {
-			rep.violation("scenario=C02;mode=threaded;failure=commit_error".to_string(), format!("the workload process ended by itself (a commit failed or it crashed): {:?}", st), replay);
+			rep.violation(format!("scenario={};mode=threaded;failure=commit_error", ctx.prop), format!("the workload process ended by itself (a commit failed or it crashed): {:?}", st), replay);
 			return
 		}
 		kill(&mut ch);
@@ -253,11 +253,11 @@ fn scenario(ctx: &Ctx, rep: &mut Report, case_seed: u64, variant: u64, desc: &st
 		let db = match catch(|| Db::open(&o2)) {
 			Ok(Ok(d)) => d,
 			Ok(Err(e)) => {
-				rep.violation("scenario=C02;mode=threaded;failure=open_error".to_string(), format!("after SIGKILL under load (+ {} kill(s) during recovery) the database does not open: {}", recovery_kills, e), replay);
+				rep.violation(format!("scenario={};mode=threaded;failure=open_error", ctx.prop), format!("after SIGKILL under load (+ {} kill(s) during recovery) the database does not open: {}", recovery_kills, e), replay);
 				return
 			},
 			Err(p) => {
-				rep.violation(format!("scenario=C02;mode=threaded;failure=open_panic;site={}", panic_site(&p)), format!("Db::open panicked after SIGKILL under load: {}", p), replay);
+				rep.violation(format!("scenario={};mode=threaded;failure=open_panic;site={}", ctx.prop, panic_site(&p)), format!("Db::open panicked after SIGKILL under load: {}", p), replay);
 				return
 			},
 		};
@@ -298,7 +298,7 @@ fn scenario(ctx: &Ctx, rep: &mut Report, case_seed: u64, variant: u64, desc: &st
 			None => {
 				let sample: Vec<String> = observed.iter().filter(|(k, v)| state.get(*k) != Some(*v)).take(3).map(|(k, v)| format!("{} = {}", short_bytes(&k.1), v.as_ref().map_or("absent".to_string(), |v| format!("{} bytes of transaction {}", v.len(), u64::from_le_bytes(v[..8].try_into().unwrap()))))).collect();
 				rep.violation(
-					"scenario=C02;mode=threaded;failure=non_prefix_state".to_string(),
+					format!("scenario={};mode=threaded;failure=non_prefix_state", ctx.prop),
 					format!(
 						"after SIGKILL under load (round {}, {} transactions known before, {} started, {} acknowledged, {} kill(s) during recovery) the database matches no prefix; e.g. {}",
 						round, base_n, started, acked, recovery_kills, sample.join(", ")
@@ -323,7 +323,7 @@ fn scenario(ctx: &Ctx, rep: &mut Report, case_seed: u64, variant: u64, desc: &st
 	for i in base_n + 1..=base_n + rng.range(3, 12) {
 		let tx = tx_of(case_seed ^ 0xC0, variant, i);
 		if let Err(e) = db.commit_changes(to_ops(&tx)) {
-			rep.violation("scenario=C02;mode=threaded;failure=continuation_commit_refused".to_string(), format!("{}", e), replay);
+			rep.violation(format!("scenario={};mode=threaded;failure=continuation_commit_refused", ctx.prop), format!("{}", e), replay);
 			return
 		}
 		for (k, v) in tx {
@@ -336,7 +336,7 @@ fn scenario(ctx: &Ctx, rep: &mut Report, case_seed: u64, variant: u64, desc: &st
 		rep.evaluations += 1;
 		if &db.get(k.0, &k.1).expect("get") != v {
 			rep.violation(
-				"scenario=C02;mode=threaded;failure=continuation_diverged".to_string(),
+				format!("scenario={};mode=threaded;failure=continuation_diverged", ctx.prop),
 				format!("after recovery, a few more transactions and a clean restart key {} of column {} differs from the model re-based at the recovered prefix {}", short_bytes(&k.1), k.0, base_n),
 				replay,
 			);
@@ -344,6 +344,42 @@ fn scenario(ctx: &Ctx, rep: &mut Report, case_seed: u64, variant: u64, desc: &st
 		}
 	}
 	rep.count("continuation_checks", 1);
+	// ---- the files are structurally sound after recovery + continuation + clean restart
+	// (independent parser of the files, pvfsck)
+	{
+		let cfg = cfg_of(variant);
+		let specs: Vec<pvfsck::ColSpec> = cfg
+			.cols
+			.iter()
+			.map(|c| pvfsck::ColSpec {
+				btree: c.btree_index,
+				multitree: c.multitree,
+				ref_counted: c.ref_counted,
+				preimage: c.preimage,
+				uniform: c.uniform,
+				append_only: c.append_only,
+				compression: match c.compression {
+					CompressionType::NoCompression => 0,
+					CompressionType::Lz4 => 1,
+					CompressionType::Snappy => 2,
+				},
+			})
+			.collect();
+		let hash: Vec<_> = base.iter().filter(|(k, v)| k.0 == 0 && v.is_some()).map(|(k, v)| (db.verif_hash_key(0, &k.1), v.clone().unwrap(), 1u32)).collect();
+		let btree: Vec<_> = base.iter().filter(|(k, v)| k.0 == 1 && v.is_some()).map(|(k, v)| (k.1.clone(), v.clone().unwrap(), 1u32)).collect();
+		let r = pvfsck::check_dir(&dir, &specs, &[pvfsck::Expect::Hash(hash), pvfsck::Expect::Btree(btree)]);
+		rep.count("fsck_after_recovery", 1);
+		rep.evaluations += 1 + r.stats.get("values_compared").copied().unwrap_or(0);
+		if !r.errors.is_empty() {
+			let class = r.errors[0].split(':').next().unwrap_or("unknown").to_string();
+			rep.violation(
+				format!("scenario={};mode=threaded;failure=fsck;class={}", ctx.prop, class),
+				format!("after SIGKILL under load, recovery, a continuation and a clean restart the files are not structurally sound: {}", r.errors.iter().take(4).cloned().collect::<Vec<_>>().join(" | ")),
+				replay,
+			);
+			return
+		}
+	}
 	if rep.samples.len() < 2 {
 		rep.sample(J::obj().set("case", J::s(desc.to_string())).set("rounds", J::i(rounds)).set("transactions_recovered", J::i(base_n)));
 	}
